@@ -285,7 +285,7 @@ def correspondence(ctx) -> CorrResult:
     res = CorrResult()
     items = []
     dist = {"kinds": {}, "errors": {}, "frequencies": {}, "blocks": {}}
-    n = ctx.scale(1600, 80000)
+    n = ctx.scale(1600, 60000)
     # strings the library itself produces
     pool = []
     for _ in range(400):
@@ -347,7 +347,7 @@ def falsify(ctx, hints):
     rng = ctx.rng
     ck = Checker()
     NS = "ns = dict(yy=ir.yy, hh=ir.hh, qq=ir.qq, mm=ir.mm, dd=ir.dd, ii=ir.ii)\n"
-    for it in range(ctx.scale(300, 8000)):
+    for it in range(ctx.scale(300, 4000)):
         f = rng.choice(FREQS)
         s = rand_spec(rng, freq=f, lo=1, hi=9950, sloppy=0)      # room for a later period inside the supported calendar
         P = py_spec(s)
